@@ -205,73 +205,109 @@ static std::string selftest() {
 }
 
 // ------------------------------------------------------------------ deviation ops
-enum { O_DEL, O_DUP, O_SWAP, O_RETAG, O_SUBST, O_INJECT, O_FLIPFIN, O_PROT, O_N };
-static const char *op_name[] = { "delete", "duplicate", "swap", "retag", "substitute", "inject", "flip-finished", "wrong-protection" };
-struct Op { int kind = -1, pos = 0, arg = 0, arg2 = 0; std::string text, sig; };
+enum { O_DEL, O_DUP, O_SWAP, O_RETAG, O_SUBST, O_INJECT, O_FLIPFIN, O_PROT, O_MODE, O_N };
+static const char *op_name[] = { "delete", "duplicate", "swap", "retag", "substitute", "inject", "flip-finished", "wrong-protection", "trace-of-other-mode" };
+struct Op { int kind = -1, pos = 0, arg = 0; std::string text; };
 
 static int item_tok(const Item &x) { return x.st.type_override >= 0 ? tok_of_hs_type(x.st.type_override) : tok_of_msg(x.st.msg); }
 static bool is_hs_item(const Item &x) { int m = x.st.msg; return m < 0x100 || m == pup::M_CERTIFICATE_EMPTY || m == pup::M_RAW_HANDSHAKE; }
 
-// applies one op drawn from the tape to the item list; returns its description and the failure signature to use if the victim completes
-static Op apply_op(Tape &t, std::vector<Item> &it) {
-    Op op; size_t n = it.size();
-    static const std::vector<int> retag_types = { 0, 1, 2, 4, 11, 12, 13, 14, 15, 16, 20, 22, 99 };
-    op.kind = (int) t.below(O_N);
-    if (n == 0) op.kind = O_INJECT;
+static std::vector<Item> base_items(const Mode &m);
+static const std::vector<int> RETAG_TYPES = { 0, 1, 2, 4, 11, 12, 13, 14, 15, 16, 20, 22, 99 };
+static const std::vector<int> FLIP_BITS = { 0, 1, 31, 32, 64, 95 };   // bit positions used by the bounded-exhaustive target
+
+// Applies the op (kind, pos, arg) to the item list and fills op.text; returns false when it is not applicable (kind set to -1).
+static bool apply_op(Op &op, std::vector<Item> &it, const Mode &m) {
+    size_t n = it.size(); int pos = op.pos;
+    auto in = [&](size_t lim) { return pos >= 0 && (size_t) pos < lim; };
     switch (op.kind) {
     case O_DEL: {
-        op.pos = (int) t.below(n); int tk = item_tok(it[op.pos]);
-        op.text = fmt("delete@%d(%s)", op.pos, tok_short[tk]); op.sig = tk == T_CCS ? "completed-without-ccs" : fmt("completed-with-skipped-%s", tok_name[tk]);
-        it.erase(it.begin() + op.pos); break;
+        if (!in(n)) break; int tk = item_tok(it[pos]);
+        op.text = fmt("delete@%d(%s)", pos, tok_short[tk]); it.erase(it.begin() + pos); return true;
     }
     case O_DUP: {
-        op.pos = (int) t.below(n); op.arg = t.coin(); int tk = item_tok(it[op.pos]);
-        Item d = it[op.pos]; d.st.resend = op.arg == 1 && is_hs_item(d);   // byte-identical copy, or a second honest instance
-        op.text = fmt("duplicate@%d(%s,%s)", op.pos, tok_short[tk], d.st.resend ? "same-bytes" : "rebuilt"); op.sig = fmt("completed-with-duplicate-%s", tok_name[tk]);
-        it.insert(it.begin() + op.pos + 1, d); break;
+        if (!in(n)) break; int tk = item_tok(it[pos]);
+        Item d = it[pos]; d.st.resend = op.arg == 1 && is_hs_item(d);   // byte-identical copy, or a second honest instance
+        op.text = fmt("duplicate@%d(%s,%s)", pos, tok_short[tk], d.st.resend ? "same-bytes" : "rebuilt"); it.insert(it.begin() + pos + 1, d); return true;
     }
     case O_SWAP: {
-        if (n < 2) { op.kind = -1; break; }
-        op.pos = (int) t.below(n - 1); int a = item_tok(it[op.pos]), b = item_tok(it[op.pos + 1]);
-        op.text = fmt("swap@%d(%s,%s)", op.pos, tok_short[a], tok_short[b]); op.sig = fmt("completed-with-reordered-%s-%s", tok_name[b], tok_name[a]);
-        std::swap(it[op.pos], it[op.pos + 1]); break;
+        if (n < 2 || !in(n - 1)) break; int a = item_tok(it[pos]), b = item_tok(it[pos + 1]);
+        op.text = fmt("swap@%d(%s,%s)", pos, tok_short[a], tok_short[b]); std::swap(it[pos], it[pos + 1]); return true;
     }
     case O_RETAG: {
-        std::vector<int> hs; for (size_t i = 0; i < n; i++) if (is_hs_item(it[i])) hs.push_back((int) i);
-        if (hs.empty()) { op.kind = -1; break; }
-        op.pos = hs[t.below(hs.size())]; op.arg = retag_types[t.below(retag_types.size())]; int tk = item_tok(it[op.pos]);
-        if (tok_of_hs_type(op.arg) == tk && tk != T_OTHER) op.arg = 99;
-        op.text = fmt("retag@%d(%s->type %d)", op.pos, tok_short[tk], op.arg); op.sig = fmt("completed-with-retagged-%s", tok_name[tk]);
-        it[op.pos].st.type_override = op.arg; break;
+        if (!in(n) || !is_hs_item(it[pos])) break; int tk = item_tok(it[pos]);
+        if (tok_of_hs_type(op.arg) == tk && tk != T_OTHER) break;
+        op.text = fmt("retag@%d(%s->type %d)", pos, tok_short[tk], op.arg); it[pos].st.type_override = op.arg; return true;
     }
     case O_SUBST: {
-        op.pos = (int) t.below(n); op.arg = (int) t.below(T_N); int tk = item_tok(it[op.pos]);
-        if (op.arg == tk) op.arg = (op.arg + 1) % T_N;
-        op.text = fmt("substitute@%d(%s->%s)", op.pos, tok_short[tk], tok_short[op.arg]); op.sig = fmt("completed-with-%s-in-place-of-%s", tok_name[op.arg], tok_name[tk]);
-        Item x; x.st = step_of_tok(op.arg); it[op.pos] = x; break;
+        if (!in(n) || op.arg < 0 || op.arg >= T_N) break; int tk = item_tok(it[pos]);
+        if (op.arg == tk) break;
+        op.text = fmt("substitute@%d(%s->%s)", pos, tok_short[tk], tok_short[op.arg]); Item x; x.st = step_of_tok(op.arg); it[pos] = x; return true;
     }
     case O_INJECT: {
-        op.pos = (int) t.below(n + 1); op.arg = (int) t.below(T_N);
-        op.text = fmt("inject@%d(%s)", op.pos, tok_short[op.arg]);
-        op.sig = op.arg == T_CCS ? "completed-with-extra-ccs" : fmt("completed-with-injected-%s", tok_name[op.arg]);
-        Item x; x.st = step_of_tok(op.arg); it.insert(it.begin() + op.pos, x); break;
+        if (!in(n + 1) || op.arg < 0 || op.arg >= T_N) break;
+        op.text = fmt("inject@%d(%s)", pos, tok_short[op.arg]); Item x; x.st = step_of_tok(op.arg); it.insert(it.begin() + pos, x); return true;
     }
     case O_FLIPFIN: {
         int f = -1; for (size_t i = 0; i < n; i++) if (it[i].st.msg == pup::M_FINISHED) f = (int) i;
-        if (f < 0) { op.kind = -1; break; }
-        op.pos = f; op.arg = (int) t.below(96);
-        op.text = fmt("flip-finished@%d(bit %d)", f, op.arg); op.sig = "completed-with-bad-finished";
-        it[f].st.flip_bit = op.arg; break;
+        if (f < 0) break;
+        op.pos = f; op.text = fmt("flip-finished@%d(bit %d)", f, op.arg); it[f].st.flip_bit = op.arg; return true;
     }
     case O_PROT: {
-        op.pos = (int) t.below(n); int tk = item_tok(it[op.pos]);
-        bool after_ccs = false; for (int i = 0; i < op.pos; i++) if (it[i].st.msg == pup::M_CCS) after_ccs = true;
-        it[op.pos].st.prot = after_ccs ? pup::P_CLEAR : pup::P_ENCRYPTED;
-        op.text = fmt("%s@%d(%s)", after_ccs ? "in-the-clear" : "encrypted-early", op.pos, tok_short[tk]);
-        op.sig = fmt(after_ccs ? "completed-with-plaintext-%s" : "completed-with-prematurely-encrypted-%s", tok_name[tk]); break;
+        if (!in(n)) break; int tk = item_tok(it[pos]);
+        bool after_ccs = false; for (int i = 0; i < pos; i++) if (it[i].st.msg == pup::M_CCS) after_ccs = true;
+        it[pos].st.prot = after_ccs ? pup::P_CLEAR : pup::P_ENCRYPTED;
+        op.text = fmt("%s@%d(%s)", after_ccs ? "in-the-clear" : "encrypted-early", pos, tok_short[tk]); return true;
     }
+    case O_MODE: {   // the complete legal trace of a neighbouring mode: other client-auth setting / other key exchange / abbreviated instead of full (or vice versa)
+        Mode m2 = m;
+        if (op.arg == 0) m2.cauth = !m.cauth; else if (op.arg == 1) m2.sv = m.sv ^ 1; else m2.resumed = !m.resumed;
+        static const char *what[] = { "client-auth-flipped", "key-exchange-flipped", "resumption-flipped" };
+        op.text = fmt("trace-of-other-mode(%s)", what[op.arg % 3]); it = base_items(m2); return true;
+    }
+    }
+    op.kind = -1; return false;
+}
+// one op drawn from the tape for the current item list
+static Op draw_op(Tape &t, const std::vector<Item> &it) {
+    Op op; size_t n = it.size(); op.kind = (int) t.below(O_N);
+    if (n == 0) op.kind = O_INJECT;
+    switch (op.kind) {
+    case O_DEL: case O_PROT: op.pos = (int) t.below(n); break;
+    case O_DUP: op.pos = (int) t.below(n); op.arg = t.coin(); break;
+    case O_SWAP: op.pos = n >= 2 ? (int) t.below(n - 1) : 0; break;
+    case O_RETAG: op.pos = (int) t.below(n); op.arg = t.pick(RETAG_TYPES); break;
+    case O_SUBST: op.pos = (int) t.below(n); op.arg = (int) t.below(T_N); break;
+    case O_INJECT: op.pos = (int) t.below(n + 1); op.arg = (int) t.below(T_N); break;
+    case O_FLIPFIN: op.arg = (int) t.below(96); break;
+    case O_MODE: op.arg = (int) t.below(3); break;
     }
     return op;
+}
+// every single-step deviation of the legal trace of a mode (bounded-exhaustive target)
+static std::vector<Op> all_singles(const Mode &m) {
+    std::vector<Op> r; std::vector<Item> base = base_items(m); int n = (int) base.size();
+    auto add = [&](int k, int pos, int arg) { Op o; o.kind = k; o.pos = pos; o.arg = arg; std::vector<Item> tmp = base; if (apply_op(o, tmp, m)) { o.text.clear(); o.pos = pos; r.push_back(o); } };
+    { Op none; none.kind = -1; r.push_back(none); }   // the legal trace itself
+    for (int i = 0; i < n; i++) add(O_DEL, i, 0);
+    for (int i = 0; i < n; i++) { add(O_DUP, i, 0); if (is_hs_item(base[i])) add(O_DUP, i, 1); }
+    for (int i = 0; i + 1 < n; i++) add(O_SWAP, i, 0);
+    for (int i = 0; i < n; i++) for (int ty : RETAG_TYPES) add(O_RETAG, i, ty);
+    for (int i = 0; i < n; i++) for (int tk = 0; tk < T_N; tk++) add(O_SUBST, i, tk);
+    for (int i = 0; i <= n; i++) for (int tk = 0; tk < T_N; tk++) add(O_INJECT, i, tk);
+    for (int b : FLIP_BITS) add(O_FLIPFIN, 0, b);
+    for (int i = 0; i < n; i++) add(O_PROT, i, 0);
+    for (int a = 0; a < 3; a++) add(O_MODE, 0, a);
+    return r;
+}
+// the modes of the bounded-exhaustive target
+static std::vector<Mode> enum_modes() {
+    std::vector<Mode> r;
+    for (int vs = 0; vs < 2; vs++) for (int sv = 0; sv < N_SV; sv++) for (int ems = 0; ems < 4; ems += 3) {
+        if (ems && sv >= 2) continue;
+        for (int k = 0; k < 3; k++) { Mode m; m.victim_server = vs == 1; m.sv = sv; m.cauth = k == 1; m.ems = ems; m.resumed = k == 2; r.push_back(m); }
+    }
+    return r;
 }
 
 static std::vector<Tk> tokenize(const std::vector<Item> &it) {
@@ -294,15 +330,29 @@ static void prop(Tape &t, Ctx &c) {
     if (!g_selftest_done) { g_selftest = selftest(); g_selftest_done = true; }
     VF_CHECK(g_selftest.empty(), "harness-puppet-selftest", "the un-deviated puppet script does not interoperate with MatrixSSL: %s", g_selftest.c_str());
 
+#ifdef C06_ENUM
+    // bounded-exhaustive: index -> (mode, single deviation), default framing, one trailing application record
+    static std::vector<std::pair<Mode, std::vector<Op>>> table;
+    if (table.empty()) for (auto &mm : enum_modes()) table.emplace_back(mm, all_singles(mm));
+    uint64_t idx = t.u64(); Mode m; const std::vector<Op> *sp = nullptr;
+    for (auto &e : table) { if (idx < e.second.size()) { m = e.first; sp = &e.second; break; } idx -= e.second.size(); }
+    if (!sp) throw Discard{};
+    const std::vector<Op> &singles = *sp;
+    uint32_t seed = 1 + (uint32_t) idx;
+    std::vector<Item> it = base_items(m); std::vector<Op> ops;
+    { Op op = singles[idx]; if (op.kind >= 0 && apply_op(op, it, m)) ops.push_back(op); }
+    it.push_back(trailer_item(0));
+#else
     Mode m; m.victim_server = t.coin(); m.sv = (int) t.below(N_SV); m.cauth = t.coin(); m.ems = (int) t.pick(std::vector<int>{ 0, 0, 0, 1, 2, 3 });
     m.resumed = t.chance(1, 5);
     uint32_t seed = t.u16();
-    unsigned nsel = (unsigned) t.below(10); int nops = nsel == 0 ? 0 : nsel <= 7 ? 1 : 2;
+    unsigned nsel = (unsigned) t.below(10); int nops = nsel == 0 ? 0 : nsel <= 5 ? 1 : 2;   // single deviations are also enumerated completely by c06_seq12_singles
     std::vector<Item> it = base_items(m);
     std::vector<Op> ops;
-    for (int i = 0; i < nops; i++) { Op op = apply_op(t, it); if (op.kind >= 0) ops.push_back(op); }
+    for (int i = 0; i < nops; i++) { Op op = draw_op(t, it); if (apply_op(op, it, m)) ops.push_back(op); }
     int ntrail = t.chance(7, 8) ? 1 + (int) t.chance(1, 4) : 0;
     for (int i = 0; i < ntrail; i++) it.push_back(trailer_item(i));
+#endif
 
     // record-level shape, chosen independently of the deviation
     unsigned vary = (unsigned) t.below(4);
@@ -397,5 +447,17 @@ static void prop(Tape &t, Ctx &c) {
                      "victim delivered %zu bytes (%s) but the model allows only %zu bytes at this point (%s); %s", o.delivered.size(), hex(o.delivered.data(), o.delivered.size(), 24).c_str(), allowed.size(), v.why.c_str(), desc.c_str());
     }
 }
+#ifdef C06_ENUM
+namespace vf { uint64_t vf_enum_total() { uint64_t n = 0; for (auto &m : enum_modes()) n += all_singles(m).size(); return n; } }
+VF_TARGET("C06.seq12_all_singles", prop, 16, 60)
+#else
 VF_TARGET("C06.seq12", prop, 128, 60)
-namespace vf { void vf_global_init(int, char **) { mxh::global_open(); } }
+#endif
+namespace vf { void vf_global_init(int, char **) {
+    if (getenv("C06_LIST_SINGLES")) {   // index -> deviation table of the bounded-exhaustive target (for naming regression tapes)
+        uint64_t idx = 0;
+        for (auto &m : enum_modes()) for (auto &o : all_singles(m)) { Op op = o; std::vector<Item> it = base_items(m); if (op.kind >= 0) apply_op(op, it, m); printf("%llu %s %s\n", (unsigned long long) idx++, mode_str(m).c_str(), op.kind < 0 ? "(legal trace)" : op.text.c_str()); }
+        exit(0);
+    }
+    mxh::global_open();
+} }
